@@ -540,6 +540,21 @@ func (r *Resolver) resolve(ctx context.Context, rs *resolveState) (*dns.Msg, err
 // exactly minimize's private copy, which handleLookupError at most reads.
 // A shared request (rs.req) must pass owned=false so the leader gets its
 // own copy, made while the caller still exclusively owns the memory.
+// forwardedSubnet names the client-subnet option a request carries ("" when
+// it has none): family, source length, scope and address.
+func forwardedSubnet(req *dns.Msg) string {
+	opt := req.IsEdns0()
+	if opt == nil {
+		return ""
+	}
+	for _, o := range opt.Option {
+		if subnet, ok := o.(*dns.EDNS0_SUBNET); ok {
+			return subnet.String()
+		}
+	}
+	return ""
+}
+
 func (r *Resolver) groupLookup(ctx context.Context, rs *resolveState, req *dns.Msg, servers *authority.Servers, owned bool) (resp *dns.Msg, err error) {
 	q := req.Question[0]
 
@@ -564,8 +579,13 @@ func (r *Resolver) groupLookup(ctx context.Context, rs *resolveState, req *dns.M
 	if req.CheckingDisabled {
 		cd = '1'
 	}
-	key := strconv.FormatUint(cache.Key(q), 10) + "|" + servers.Zone +
+	target := strconv.FormatUint(cache.Key(q), 10) + "|" + servers.Zone +
 		"|" + string(cd) + "|" + strconv.FormatUint(servers.Fingerprint(), 10)
+	// And the client subnet the query carries upstream: an authority may
+	// tailor its answer to it, so two callers that differ in it ask
+	// different questions, and the answer to one must not be handed to the
+	// other (the cache's own dedup key separates scopes for the same reason).
+	key := target + "|" + forwardedSubnet(req)
 
 	// The leader closure can outlive this caller: TimedDoChan returns on this
 	// caller's timeout/cancel while the shared generation remains registered
